@@ -71,10 +71,27 @@ def build_variant(scr, name):
     return exe
 
 
+def build_backend(scr, be):
+    """compile the sources of one IDN back end (partial/<be>) against the shim headers onto one converter"""
+    d = scr.copy_repo("b_" + be)
+    define = {"idn": "-DHAVE_LIBIDN", "idnkit": "-DHAVE_IDNKIT", "idn2": "-DHAVE_LIBIDN2"}[be]
+    shim = os.path.join(VERIF, "shims")
+    srcs = sorted(os.path.join(d, "src", x) for x in os.listdir(os.path.join(d, "src")) if x.endswith(".c"))
+    srcs += sorted(os.path.join(d, "partial", be, x) for x in os.listdir(os.path.join(d, "partial", be)) if x.endswith(".c"))
+    exe = os.path.join(d, "drive")
+    cmd = [CC] + SAN.split() + ["-w", "-std=gnu99", "-D_DEFAULT_SOURCE", "-D_XOPEN_SOURCE=700", define] + \
+          (["-I" + shim] if be != "idn2" else []) + ["-I" + os.path.join(d, "include"), "-I" + d] + srcs + \
+          [os.path.join(shim, "shim_impl.c"), os.path.join(VERIF, "harness/drive.c"), "-lidn2", "-Wl,--wrap=idn2_to_ascii_8z", "-o", exe]
+    p = subprocess.run(cmd, stdout=subprocess.PIPE, stderr=subprocess.STDOUT)
+    if p.returncode != 0:
+        raise BuildError("back end %s does not build against the shim headers:\n%s" % (be, p.stdout.decode(errors="replace")[-3000:]))
+    return exe
+
+
 def build_variants(scr, names):
     from concurrent.futures import ThreadPoolExecutor
     with ThreadPoolExecutor(max_workers=8) as ex:
-        futs = {n: ex.submit(build_variant, scr, n) for n in names}
+        futs = {n: (ex.submit(build_backend, scr, n[3:]) if n.startswith("be:") else ex.submit(build_variant, scr, n)) for n in names}
         return {n: f.result() for n, f in futs.items()}
 
 
